@@ -403,7 +403,7 @@ CLAIMS["C15"] = {"technique": "Lean 4 proof of the dispatch / format-override / 
     "note": "Partial: process behaviour is observed, not proved."}
 
 CLAIMS["C17"] = {"technique": "Lean 4 proof (permutation invariance of the four scan classes) + kernel-checked classification of every list-reading lint over regenerated footprints + permutation search",
-    "text": "scan_perm: any-match, all-match, count and set-valued scans give the same verdict on every permutation of every list; names_verdicts_perm: for the eight modelled name lints (ZlModel/Names.lean, tied by the names correspondence) order independence is a theorem about the rule body itself. Every registered lint whose regenerated footprint reads an order-bearing list field (SAN/IAN entries, extensions, EKUs, policies, RDN attributes, CRL entries) must appear in the hand-written class table (class_table_total), and a lint that can return different statuses from inside the loop must be reviewed or listed. Search: SAN/IAN entries, extensions, EKUs and policies of kit and corpus certificates permuted by DER surgery, all lints compared. Eight committed known findings (first-unparseable-name NA and the NFC lint) are excused by lint name only.",
+    "text": "scan_perm: any-match, all-match, count and set-valued scans give the same verdict on every permutation of every list; names_verdicts_perm: for the fourteen modelled name lints (ZlModel/Names.lean, tied by the names correspondence) order independence is a theorem about the rule body itself. Every registered lint whose regenerated footprint reads an order-bearing list field (SAN/IAN entries, extensions, EKUs, policies, RDN attributes, CRL entries) must appear in the hand-written class table (class_table_total), and a lint that can return different statuses from inside the loop must be reviewed or listed. Search: SAN/IAN entries, extensions, EKUs and policies of kit and corpus certificates permuted by DER surgery, all lints compared. Eight committed known findings (first-unparseable-name NA and the NFC lint) are excused by lint name only.",
     "note": "Partial: the body-is-a-scan step is classification + search. Known findings: 8 san-order entries in known_findings.json."}
 
 CLAIMS["C20"] = {"technique": "Lean 4 proof (element-wise agreement lifts to mirrored lists; threshold implication) + kernel checks over the regenerated registry + pair search on the real lints",
